@@ -2,7 +2,7 @@
 //! here from how the request was built (never by asking the library). Body decodability is known by
 //! construction and double-checked with the third-party codecs (serde_json / beve), not with repe.
 
-use super::srv::{ALL_T, CODES, T, Tin, Tout, code_of, erased_spec, reg_val, slice_result};
+use super::srv::{ALL_T, CODES, ERASED_OP_ERR_PAYLOAD, OP_ERR_PAD, T, Tin, Tout, code_of, erased_spec, reg_val, slice_result};
 use crate::common::*;
 use crate::oracle::{self, SpecHeader};
 use serde_json::{Value, json};
@@ -47,6 +47,24 @@ pub struct Req {
     pub target: Option<T>,
     pub variant: &'static str,
     pub expect: Expect,
+    /// set when the request is built so that the library quotes long non-ASCII caller text in an error text
+    pub reflect: Option<Reflect>,
+}
+
+/// How a request makes the library quote caller-chosen text in the error text of its response.
+#[derive(Clone, Debug)]
+pub struct Reflect {
+    pub kind: &'static str,
+    /// sub-variant (route kind / error code) that may word the error text differently
+    pub sub: usize,
+    /// the caller-chosen text (informational: is it quoted in full?)
+    pub needle: Vec<u8>,
+    /// byte length of error text this request was aimed at (0 = probe / not aimed)
+    pub aimed_len: usize,
+    /// the length landmark the aim belongs to (0 = probe)
+    pub boundary: usize,
+    /// bytes per character of the filler (0 = mixed widths)
+    pub width: u8,
 }
 
 impl Req {
@@ -64,6 +82,7 @@ impl Req {
             "body_format": self.bf, "body_len": self.body.len(), "body_hex": hex_trunc(&self.body, 96),
             "target": self.target.map(|t| t.path()), "variant": self.variant, "class": self.expect.label,
             "allowed_ec": self.expect.allowed,
+            "reflect": self.reflect.as_ref().map(|r| json!({"kind": r.kind, "text_bytes": r.needle.len(), "aimed_error_text_len": r.aimed_len, "landmark": r.boundary, "char_width": r.width})),
         })
     }
 }
@@ -402,6 +421,7 @@ pub fn gen_req(token: u64, rng: &mut Rng, st: &mut GenStats) -> Req {
         target,
         variant: built.variant,
         expect,
+        reflect: None,
     }
 }
 
@@ -412,4 +432,195 @@ pub fn gen_seq(seq: u64, rng: &mut Rng, st: &mut GenStats) -> Vec<Req> {
         _ => 1 + rng.usize_below(64),
     };
     (0..len).map(|i| gen_req(seq * 256 + i as u64 + 1, rng, st)).collect()
+}
+
+// ------------------------------------------------------------------ error texts that quote long non-ASCII caller text
+
+/// Every way found to make the library quote caller-chosen text in an error text. Whether a kind really is
+/// quoted (and with how many bytes around it) is measured at run time with a short probe, never assumed.
+pub const REFLECT_KINDS: [&str; 5] = [
+    "unknown-path",
+    "handler-message",
+    "erased-server-error",
+    "decode-invalid-type",
+    "decode-invalid-type-beve",
+];
+
+/// Length landmarks of the error text (power-of-two style caps someone might introduce).
+pub const LANDMARKS_QUICK: [usize; 5] = [256, 1024, 4096, 8192, 65536];
+pub const LANDMARKS_THOROUGH: [usize; 10] = [128, 256, 512, 1024, 2048, 4096, 8192, 16384, 32768, 65536];
+
+const W2: [char; 4] = ['é', 'ß', 'я', 'ñ'];
+const W3: [char; 4] = ['中', '✓', '€', 'あ'];
+const W4: [char; 4] = ['😀', '𝄞', '🦀', '𐍈'];
+
+/// Exactly `len` bytes of text made of `width`-byte characters (ASCII lead of `len % width` bytes so that the
+/// character grid shifts with the length); width 0 = a random mix of 1..4-byte characters.
+pub fn nonascii_text(len: usize, width: u8, rng: &mut Rng) -> String {
+    let mut s = String::with_capacity(len + 4);
+    match width {
+        2 | 3 | 4 => {
+            let w = width as usize;
+            for _ in 0..len % w {
+                s.push('x');
+            }
+            let set: &[char; 4] = match width {
+                2 => &W2,
+                3 => &W3,
+                _ => &W4,
+            };
+            let start = rng.usize_below(4);
+            let mut k = 0usize;
+            while s.len() + w <= len {
+                s.push(set[(start + k) % 4]);
+                k += 1;
+            }
+        }
+        _ => {
+            while s.len() < len {
+                let room = len - s.len();
+                let w = (1 + rng.usize_below(4)).min(room);
+                s.push(match w {
+                    1 => *rng.pick(&['x', 'y', '_', '7']),
+                    2 => *rng.pick(&W2),
+                    3 => *rng.pick(&W3),
+                    _ => *rng.pick(&W4),
+                });
+            }
+        }
+    }
+    debug_assert_eq!(s.len(), len);
+    s
+}
+
+const HM_TARGETS: [T; 10] = [T::Json, T::JCtx, T::BJson, T::BJCtx, T::Typed, T::TCtx, T::BTyped, T::BTCtx, T::Jth, T::RegFn];
+const DEC_TARGETS: [T; 6] = [T::Typed, T::TCtx, T::BTyped, T::BTCtx, T::Jth, T::StEcho];
+
+/// Number of sub-variants of a kind whose error text may be worded differently (route kind, error code name).
+pub fn reflect_subs(kind: &str) -> usize {
+    match kind {
+        "unknown-path" => 1,
+        "handler-message" => HM_TARGETS.len(),
+        "erased-server-error" => CODES.len(),
+        _ => DEC_TARGETS.len(),
+    }
+}
+
+/// One request whose error response quotes `text` (if the library quotes this kind at all).
+pub fn reflect_req(token: u64, kind: &'static str, sub: usize, text: &str, aimed_len: usize, boundary: usize, width: u8, rng: &mut Rng, st: &mut GenStats) -> Req {
+    let label = format!("non-ascii-error-text:{kind}");
+    let plain = Tin { t: token, op: 0, c: 0, pad: String::new() };
+    let (query, bf, body, target, variant, allowed, dispatched, invoked): (Vec<u8>, u16, Vec<u8>, Option<T>, &'static str, Vec<u32>, bool, bool) = match kind {
+        "unknown-path" => (format!("/{text}").into_bytes(), 2, enc(2, &plain), None, "long-non-ascii-path", vec![6], false, false),
+        "handler-message" => {
+            let t = HM_TARGETS[sub % HM_TARGETS.len()];
+            let c = rng.below(CODES.len() as u64) as u8;
+            let r = Tin { t: token, op: OP_ERR_PAD, c, pad: text.to_string() };
+            let bf = *rng.pick(&[2u16, 2, 1, 3]);
+            (t.path().as_bytes().to_vec(), bf, enc(bf, &r), Some(t), "handler-returns-text", vec![code_of(c) as u32], true, true)
+        }
+        "erased-server-error" => {
+            let c = (sub % CODES.len()) as u8;
+            let mut body = token.to_le_bytes().to_vec();
+            body.push(ERASED_OP_ERR_PAYLOAD);
+            body.push(c);
+            body.extend_from_slice(text.as_bytes());
+            (T::Erased.path().as_bytes().to_vec(), *rng.pick(&BF_ALL), body, Some(T::Erased), "returns-err-with-text", vec![code_of(c) as u32], true, true)
+        }
+        _ => {
+            // a string where the record wants a number: serde's "invalid type" message quotes the string
+            let t = DEC_TARGETS[sub % DEC_TARGETS.len()];
+            let v = json!({"t": text, "op": 0, "c": 0, "pad": "", "tok": token});
+            let (bf, body) = if kind == "decode-invalid-type-beve" { (1u16, beve::to_vec(&v).unwrap()) } else { (*rng.pick(&[2u16, 2, 3]), serde_json::to_vec(&v).unwrap()) };
+            let fam = if t == T::StEcho { Fam::StMethod } else { Fam::Typed };
+            if decodes(fam, t, bf, &body) {
+                st.classifier_disagreements += 1;
+            }
+            (t.path().as_bytes().to_vec(), bf, body, Some(t), "string-for-number", vec![4, 5], true, false)
+        }
+    };
+    Req {
+        id: id_of(token),
+        token,
+        version: 1,
+        notify: 0,
+        qf: 1,
+        query,
+        bf,
+        body,
+        target,
+        variant,
+        expect: Expect { label, allowed, dispatched, invoked, body: ExpBody::Open },
+        reflect: Some(Reflect { kind, sub, needle: text.as_bytes().to_vec(), aimed_len, boundary, width }),
+    }
+}
+
+/// The probe pipeline: one short request per (kind, sub-variant) carrying a distinctive non-ASCII marker.
+pub fn reflect_probe_seq(seq: u64, rng: &mut Rng, st: &mut GenStats) -> Vec<Req> {
+    let mut v = vec![];
+    for k in REFLECT_KINDS {
+        for sub in 0..reflect_subs(k) {
+            let i = v.len();
+            v.push(reflect_req(seq * 256 + i as u64 + 1, k, sub, &format!("Zq\u{e9}\u{4e2d}\u{1f600}mark{i}"), 0, 0, 0, rng, st));
+        }
+    }
+    v
+}
+
+/// Pipelines (<= 64 requests) mixing ordinary generated requests with requests aimed at error texts of
+/// `landmark - w - 1 ..= landmark + w + 1` bytes for every character width w (and a mixed-width filler), so that a
+/// landmark byte offset falls on every position inside a character, and the text is one byte short of, exactly at
+/// and past the landmark. `overhead[kind]` = bytes the library adds around the quoted text (from the probe).
+pub fn reflect_seqs(seq_base: u64, rng: &mut Rng, st: &mut GenStats, overhead: &[(&'static str, Vec<Option<usize>>)], landmarks: &[usize], spread: usize) -> Vec<(u64, Vec<Req>)> {
+    // (kind, sub, text_len, aimed_len, landmark, width)
+    let mut plan: Vec<(&'static str, usize, usize, usize, usize, u8)> = vec![];
+    for (kind, ovs) in overhead {
+        let subs: Vec<(usize, usize)> = ovs.iter().enumerate().filter_map(|(i, o)| o.map(|o| (i, o))).collect();
+        if subs.is_empty() {
+            continue;
+        }
+        // serde_json appends "at line 1 column N": N grows with the text, so the measured bytes-around-quote is a few short
+        let slack = if *kind == "decode-invalid-type" { 3 } else { 0 };
+        for &b in landmarks {
+            for w in [2u8, 3, 4, 0] {
+                let wmax = if w == 0 { 2 } else { w as usize } + 1 + spread + slack;
+                for aimed in b - wmax..=b + wmax {
+                    let (sub, ov) = *rng.pick(&subs);
+                    if aimed > ov + 8 {
+                        plan.push((kind, sub, aimed - ov, aimed, b, w));
+                    }
+                }
+            }
+        }
+    }
+    rng.shuffle(&mut plan);
+    let mut out = vec![];
+    let mut it = plan.into_iter().peekable();
+    let mut seq = seq_base;
+    while it.peek().is_some() {
+        let mut reqs: Vec<Req> = vec![];
+        let mut bytes = 0usize;
+        let mut tok = seq * 256 + 1;
+        let cap = 8 + rng.usize_below(50);
+        while reqs.len() + 3 < cap && bytes < 400_000 {
+            let Some((kind, sub, tlen, aimed, b, w)) = it.next() else { break };
+            for _ in 0..rng.usize_below(3) {
+                reqs.push(gen_req(tok, rng, st));
+                tok += 1;
+            }
+            let text = nonascii_text(tlen, w, rng);
+            let r = reflect_req(tok, kind, sub, &text, aimed, b, w, rng, st);
+            tok += 1;
+            bytes += r.query.len() + r.body.len();
+            reqs.push(r);
+        }
+        // always something ordinary pipelined behind the last quoted text
+        for _ in 0..1 + rng.usize_below(2) {
+            reqs.push(gen_req(tok, rng, st));
+            tok += 1;
+        }
+        out.push((seq, reqs));
+        seq += 1;
+    }
+    out
 }
